@@ -282,8 +282,10 @@ impl<'e> Sim<'e> {
         if let Some((k, n)) = op.fuse {
             arm(k, n);
         }
+        set_budget(CALLBACK_BUDGET);
         let world = &mut self.world;
         let res = catch_unwind(AssertUnwindSafe(|| exec(world, op)));
+        set_budget(0);
         let fired = disarm();
         alloc::disarm_refusal();
         let outcome = match res {
@@ -302,6 +304,25 @@ impl<'e> Sim<'e> {
         }
         let mut at_fault_step = false;
         match &outcome {
+            Outcome::Panicked { injected: Some(name), .. } if *name == BUDGET_EXCEEDED => {
+                // the operation kept calling back into user code far beyond anything a terminating
+                // operation does: it was cut off by unwinding out of the callback
+                let mut props = match self.relaxed {
+                    Some(_) => self.fault_prop,
+                    None => C07,
+                };
+                if self.relaxed.is_none() {
+                    props |= match &op.kind {
+                        OpKind::Retain { .. } => C15,
+                        OpKind::IterScript { .. } => C12,
+                        OpKind::CloneTo => C14,
+                        OpKind::DebugFmt => C05,
+                        _ => 0,
+                    };
+                }
+                self.push(props, "does-not-terminate", format!("{} made more than {} callbacks into user code and was cut off (a walk over a cyclic or corrupted list?)", op.kind.name(), CALLBACK_BUDGET));
+                self.stop = true;
+            }
             Outcome::Panicked { injected: Some(name), .. } => {
                 at_fault_step = true;
                 self.fault_fired = Some(name);
@@ -450,8 +471,10 @@ impl<'e> Sim<'e> {
             return;
         }
         begin_step();
+        set_budget(CALLBACK_BUDGET);
         let world = &mut self.world;
         let _ = catch_unwind(AssertUnwindSafe(|| exec(world, op)));
+        set_budget(0);
         disarm();
         alloc::disarm_refusal();
         self.last_counts = counts();
@@ -483,16 +506,8 @@ impl<'e> Sim<'e> {
                 }
             }
         }
-        if let Relax::Panic { .. } = r {
-            // a &self operation (clone) that panics must leave the source as it was
-            if matches!(op.kind, OpKind::CloneTo) {
-                if let (Some(a), Some(b)) = (&pre[t], &post[t]) {
-                    if a != b {
-                        self.push(fp, "clone-panic-changed-source", format!("clone panicked and the source changed: {}", diff_obs(a, b)));
-                    }
-                }
-            }
-        }
+        // (a panicking clone() that changes its source is a C19 matter, not one of the things C16 lists;
+        // corruption of the source is caught by the structural findings above)
     }
 
     #[allow(clippy::too_many_arguments)]
